@@ -103,6 +103,7 @@ class Unit:
     self.needs = []
     self.attrs = []  # (file, anchor, [lines])
     self.swaps = []  # (file, from, to)
+    self.crateattrs = []  # inner attributes prepended to the file (crate root only)
     self.obligations = []
     self.lines = open(self.path).read().split("\n")
     self._parse()
@@ -126,6 +127,8 @@ class Unit:
         t = parse_tags(ln)
         cur_attr = (t.get("file"), t["anchor"], [])
         self.attrs.append(cur_attr)
+      elif ln.startswith("// @crateattr "):
+        self.crateattrs.append(L[i].strip()[len("// @crateattr "):])
       elif ln.startswith("// @swap "):
         t = parse_tags(ln)
         self.swaps.append((t.get("file"), t["from"], t["to"]))
@@ -257,6 +260,9 @@ def inject(root, units, selected_units, selected_fns):
     lines = get(u.file)
     lines.append('#[cfg(kani)] #[path = "%s"] mod %s;' % (upath, u.modname()))
     diffs.append("%s: +1 line (mod %s -> %s)" % (u.file, u.modname(), rel))
+    for ca in u.crateattrs:
+      lines.insert(0, ca)
+      diffs.append("%s: +1 crate attribute line `%s`" % (u.file, ca))
     for (file, anchor, ins) in u.attrs:
       f = file or u.file
       lines = get(f)
